@@ -1,3 +1,4 @@
+mod stackcache;
 use vx::common::Tier;
 use vx::{checks, drive};
 
@@ -55,6 +56,9 @@ fn main() {
         }
         Some("worker") => {
             // worker <family> <set> <mode-json> <shard> <nshards> <from> <only|-> <deadline>
+            if std::env::var("VX_NO_STACK_CACHE").is_err() {
+                stackcache::enable();
+            }
             let fam = checks::family(&args[2]);
             let mode = drive::mode_from_json(&serde_json::from_str(&args[4]).expect("mode json"));
             let shard: usize = args[5].parse().unwrap();
